@@ -188,6 +188,15 @@ func cmdCheck(args []string) int {
 		cfg.All = true
 		cfg.Workers = 8
 	}
+	knownEarly := loadKnown(filepath.Join(*vdir, "known_findings.json"))
+	cfg.Short = func(name string) bool {
+		for _, kf := range knownEarly {
+			if matchKnown(kf, *prop, name) {
+				return true
+			}
+		}
+		return false
+	}
 	e.Solve(allObls, cfg)
 	if os.Getenv("GOVC_TIMING") != "" {
 		fmt.Fprintf(os.Stderr, "solved: %.1fs since start\n", time.Since(t0).Seconds())
